@@ -6,10 +6,716 @@ import TucanProofs.Lemmas.Tables
 `graph_from_molecule`.  Whatever the input string, if it is not accepted the error is
 `TucanParserException` — never `KeyError`, `IndexError`, `ValueError` or anything else.
 -/
+namespace Tucan.RejectKind
+open Tucan
+
+/-- the computation either succeeds with a value satisfying `P`, or fails with `tucanParser` -/
+def Res {α} (P : α → Prop) : PyM α → Prop
+  | .error e => e = .tucanParser
+  | .ok a => P a
+
+theorem Res.bind {α β} {P : α → Prop} {Q : β → Prop} {x : PyM α} {f : α → PyM β}
+    (hx : Res P x) (hf : ∀ a, P a → Res Q (f a)) : Res Q (x >>= f) := by
+  cases x with
+  | error e => exact hx
+  | ok a => exact hf a hx
+
+theorem Res.mono {α} {P Q : α → Prop} {x : PyM α} (hx : Res P x) (h : ∀ a, P a → Q a) :
+    Res Q x := by
+  cases x with
+  | error e => exact hx
+  | ok a => exact h a hx
+
+theorem Res.foldlM {α β} {P : β → Prop} {Q : α → Prop} (f : β → α → PyM β)
+    (hf : ∀ a, Q a → ∀ b, P b → Res P (f b a)) :
+    ∀ (l : List α), (∀ a ∈ l, Q a) → ∀ b, P b → Res P (l.foldlM f b) := by
+  intro l
+  induction l with
+  | nil => intro _ b hb; exact hb
+  | cons a l ih =>
+    intro hl b hb
+    rw [List.foldlM_cons]
+    exact Res.bind (hf a (hl a (by simp)) b hb) (fun b' hb' => ih (fun x hx => hl x (by simp [hx])) b' hb')
+
+theorem Res.forIn {α β} {P : β → Prop} {Q : α → Prop} (f : α → β → PyM (ForInStep β))
+    (hf : ∀ a, Q a → ∀ b, P b → Res (fun s => P s.value) (f a b)) :
+    ∀ (l : List α), (∀ a ∈ l, Q a) → ∀ b, P b → Res P (forIn l b f) := by
+  intro l
+  induction l with
+  | nil => intro _ b hb; exact hb
+  | cons a l ih =>
+    intro hl b hb
+    rw [List.forIn_cons]
+    refine Res.bind (hf a (hl a (by simp)) b hb) (fun s hs => ?_)
+    cases s with
+    | done b' => exact hs
+    | yield b' => exact ih (fun x hx => hl x (by simp [hx])) b' hs
+
+theorem Res.mapM {α β} {P : β → Prop} {Q : α → Prop} (f : α → PyM β)
+    (hf : ∀ a, Q a → Res P (f a)) :
+    ∀ (l : List α), (∀ a ∈ l, Q a) → Res (fun ys => ∀ y ∈ ys, P y) (l.mapM f) := by
+  intro l
+  induction l with
+  | nil => intro _; simp [Res, pure, Except.pure]
+  | cons a l ih =>
+    intro hl
+    rw [List.mapM_cons]
+    refine Res.bind (hf a (hl a (by simp))) (fun y hy => ?_)
+    refine Res.bind (ih (fun x hx => hl x (by simp [hx]))) (fun ys hys => ?_)
+    show ∀ z ∈ y :: ys, P z
+    intro z hz
+    rcases List.mem_cons.1 hz with rfl | hz
+    · exact hy
+    · exact hys z hz
+
+/-! ## `int(text) ≥ 1` for texts that start with a digit `1`..`9` -/
+
+/-- the text starts with a digit `1`..`9` -/
+def PosText (t : Str) : Prop := ∃ c r, t = c :: r ∧ '1' ≤ c ∧ c ≤ '9'
+
+theorem dropWhile_append_singleton {p : Char → Bool} {c : Char} (hc : p c = false) :
+    ∀ l : List Char, (l ++ [c]).dropWhile p = l.dropWhile p ++ [c] := by
+  intro l
+  induction l with
+  | nil => simp [List.dropWhile, hc]
+  | cons a l ih =>
+    by_cases ha : p a = true
+    · simp [List.dropWhile, ha, ih]
+    · simp [List.dropWhile, ha]
+
+theorem dropWhileEnd_cons {p : Char → Bool} {c : Char} (hc : p c = false) (r : Str) :
+    dropWhileEnd p (c :: r) = c :: dropWhileEnd p r := by
+  simp [dropWhileEnd, dropWhile_append_singleton hc]
+
+theorem char_facts {c : Char} (h1 : '1' ≤ c) (h9 : c ≤ '9') :
+    isPySpace c = false ∧ c ≠ '-' ∧ c ≠ '+' ∧ isDigit c = true ∧ 1 ≤ digitVal c := by
+  have h1' : 49 ≤ c.toNat := h1
+  have h9' : c.toNat ≤ 57 := h9
+  refine ⟨?_, ?_, ?_, ?_, ?_⟩
+  · simp only [isPySpace, Bool.or_eq_false_iff, beq_eq_false_iff_ne, ne_eq, Bool.and_eq_false_iff, decide_eq_false_iff_not]
+    refine ⟨⟨⟨⟨⟨⟨?_, ?_⟩, ?_⟩, ?_⟩, ?_⟩, ?_⟩, ?_⟩
+    · rintro rfl; revert h1'; decide
+    · rintro rfl; revert h1'; decide
+    · rintro rfl; revert h1'; decide
+    · rintro rfl; revert h1'; decide
+    · omega
+    · omega
+    · omega
+  · rintro rfl; revert h1'; decide
+  · rintro rfl; revert h1'; decide
+  · simp only [isDigit, Bool.and_eq_true, decide_eq_true_eq]
+    constructor
+    · show 48 ≤ c.toNat
+      omega
+    · exact h9
+  · show 1 ≤ c.toNat - 48
+    omega
+
+theorem foldl_digits_ge (ds : List Char) : ∀ acc : Nat,
+    acc ≤ ds.foldl (fun acc c => acc * 10 + digitVal c) acc := by
+  induction ds with
+  | nil => intro acc; exact Nat.le_refl _
+  | cons d ds ih =>
+    intro acc
+    simp only [List.foldl_cons]
+    exact Nat.le_trans (by omega) (ih _)
+
+/-- `pyInt.match_1` is the sign-splitting `match` inside `pyInt` -/
+theorem pyInt_pos {t : Str} (ht : PosText t) {i : Int} (h : pyInt t = .ok i) : 1 ≤ i := by
+  obtain ⟨c, r, rfl, h1, h9⟩ := ht
+  obtain ⟨hsp, hm, hp, hd, hv⟩ := char_facts h1 h9
+  have hstrip : strip (c :: r) = c :: dropWhileEnd isPySpace r := by
+    simp [strip, List.dropWhile, hsp, dropWhileEnd_cons hsp]
+  have hmatch : pyInt.match_1 (fun _ => Bool × List Char) (c :: dropWhileEnd isPySpace r)
+      (fun r => (true, r)) (fun r => (false, r)) (fun r => (false, r))
+      = (false, c :: dropWhileEnd isPySpace r) := by
+    split
+    · next heq => injection heq with h2 _; exact absurd h2 hm
+    · next heq => injection heq with h2 _; exact absurd h2 hp
+    · rfl
+  unfold pyInt at h
+  simp only [hstrip, hmatch, digitsWithUnderscores, digitsGo, hd, if_true] at h
+  cases hg : digitsGo 1 (dropWhileEnd isPySpace r) with
+  | none => simp [hg] at h
+  | some ds =>
+    simp only [hg, Option.map_some] at h
+    split at h
+    · cases h
+    · injection h with h
+      subst h
+      simp only [Bool.false_eq_true, if_false]
+      have := foldl_digits_ge ds (0 * 10 + digitVal c)
+      have h2 : 1 ≤ natOfDigits (c :: ds) := by
+        simp only [natOfDigits, List.foldl_cons]
+        omega
+      exact Int.ofNat_le.2 h2
+
+/-! ## What the lexer emits: every `GREATER_THAN_NINE` text starts with `1`..`9` -/
+
+def GoodTok : Tok → Prop
+  | .lit _ => True
+  | .big ds => PosText ds
+
+theorem bigNumberLen_pos {s : Str} (h : 0 < bigNumberLen s) : PosText (s.take (bigNumberLen s)) := by
+  unfold bigNumberLen at h ⊢
+  split at h
+  · next c r =>
+    split at h
+    · next hc =>
+      simp only at h
+      split at h
+      · next hk =>
+        simp only [hc, hk, if_true, List.take_succ_cons]
+        simp only [Bool.and_eq_true, decide_eq_true_eq] at hc
+        exact ⟨c, _, rfl, hc.1, hc.2⟩
+      · exact absurd h (by decide)
+    · exact absurd h (by decide)
+  · exact absurd h (by decide)
+
+theorem lexGo_good (lits : List Str) : ∀ (fuel : Nat) (s : Str) (ts : List Tok),
+    lexGo lits fuel s = some ts → ∀ t ∈ ts, GoodTok t := by
+  intro fuel
+  induction fuel with
+  | zero =>
+    intro s ts h
+    cases s with
+    | nil => simp [lexGo] at h; subst h; simp
+    | cons c r => simp [lexGo] at h
+  | succ fuel ih =>
+    intro s ts h
+    cases s with
+    | nil => simp [lexGo] at h; subst h; simp
+    | cons c r =>
+      simp only [lexGo] at h
+      split at h
+      · next hb =>
+        cases hr : lexGo lits fuel (List.drop (bigNumberLen (c :: r)) (c :: r)) with
+        | none => simp [hr] at h
+        | some ts' =>
+          simp only [hr, Option.map_some, Option.some.injEq] at h
+          subst h
+          intro t ht
+          rcases List.mem_cons.1 ht with rfl | ht
+          · exact bigNumberLen_pos (Nat.lt_of_le_of_lt (Nat.zero_le _) hb)
+          · exact ih _ _ hr t ht
+      · split at h
+        · cases hr : lexGo lits fuel (List.drop (longestLiteral lits (c :: r)) (c :: r)) with
+          | none => simp [hr] at h
+          | some ts' =>
+            simp only [hr, Option.map_some, Option.some.injEq] at h
+            subst h
+            intro t ht
+            rcases List.mem_cons.1 ht with rfl | ht
+            · trivial
+            · exact ih _ _ hr t ht
+        · cases h
+
+theorem lex_good {s : Str} {ts : List Tok} (h : lex s = some ts) : ∀ t ∈ ts, GoodTok t :=
+  lexGo_good _ _ _ _ h
+
+theorem gtZero_pos {t : Tok} (hg : GoodTok t) (hz : isGtZero t = true) : PosText t.text := by
+  cases t with
+  | lit s =>
+    simp only [isGtZero, digit1to9] at hz
+    split at hz
+    · next c =>
+      simp only [Bool.and_eq_true, decide_eq_true_eq] at hz
+      exact ⟨c, [], rfl, hz.1, hz.2⟩
+    · cases hz
+  | big ds => exact hg
+
+/-! ## What the recogniser returns: symbols of the chosen element order, keys `mass`/`rad`,
+node indices that are `greater_than_zero` tokens of the lexer -/
+
+def KeyText (k : Str) : Prop := k = "mass".toList ∨ k = "rad".toList
+
+theorem parseElems_spec : ∀ (order : List Str) (ts : List Tok) (items : List (Str × Option Str))
+    (rest : List Tok), parseElems order ts = (items, rest) →
+    (∀ p ∈ items, p.1 ∈ order) ∧ rest ⊆ ts := by
+  intro order
+  induction order with
+  | nil =>
+    intro ts items rest h
+    simp only [parseElems, Prod.mk.injEq] at h
+    obtain ⟨rfl, rfl⟩ := h
+    simp
+  | cons e es ih =>
+    intro ts items rest h
+    unfold parseElems at h
+    split at h
+    · next s rest0 =>
+      split at h
+      · split at h
+        · next c rest' =>
+          split at h
+          · cases hr : parseElems es rest' with
+            | mk r ts' =>
+              simp only [hr, Prod.mk.injEq] at h
+              obtain ⟨rfl, rfl⟩ := h
+              obtain ⟨h1, h2⟩ := ih _ _ _ hr
+              refine ⟨?_, ?_⟩
+              · intro p hp
+                rcases List.mem_cons.1 hp with rfl | hp
+                · simp
+                · exact List.mem_cons_of_mem _ (h1 p hp)
+              · intro t ht
+                exact List.mem_cons_of_mem _ (List.mem_cons_of_mem _ (h2 ht))
+          · cases hr : parseElems es (c :: rest') with
+            | mk r ts' =>
+              simp only [hr, Prod.mk.injEq] at h
+              obtain ⟨rfl, rfl⟩ := h
+              obtain ⟨h1, h2⟩ := ih _ _ _ hr
+              refine ⟨?_, ?_⟩
+              · intro p hp
+                rcases List.mem_cons.1 hp with rfl | hp
+                · simp
+                · exact List.mem_cons_of_mem _ (h1 p hp)
+              · intro t ht
+                exact List.mem_cons_of_mem _ (h2 ht)
+        · simp only [Prod.mk.injEq] at h
+          obtain ⟨rfl, rfl⟩ := h
+          simp
+      · obtain ⟨h1, h2⟩ := ih _ _ _ h
+        exact ⟨fun p hp => List.mem_cons_of_mem _ (h1 p hp), h2⟩
+    · simp only [Prod.mk.injEq] at h
+      obtain ⟨rfl, rfl⟩ := h
+      simp
+
+theorem parseFormula_spec {ts : List Tok} {f : List (Str × Option Str)} {rest : List Tok}
+    (h : parseFormula ts = some (f, rest)) :
+    (∀ p ∈ f, p.1 ∈ withCarbonOrder ++ withoutCarbonOrder) ∧ rest ⊆ ts := by
+  unfold parseFormula at h
+  split at h
+  · split at h
+    · split at h
+      · simp only [Option.some.injEq] at h
+        obtain ⟨h1, h2⟩ := parseElems_spec _ _ _ _ h
+        exact ⟨fun p hp => List.mem_append_left _ (h1 p hp), h2⟩
+      · cases h
+    · cases h
+  · simp only [Option.some.injEq] at h
+    obtain ⟨h1, h2⟩ := parseElems_spec _ _ _ _ h
+    exact ⟨fun p hp => List.mem_append_right _ (h1 p hp), h2⟩
+
+theorem parseTuples_subset : ∀ (ts : List Tok) (tu : List (Str × Str)) (rest : List Tok),
+    parseTuples ts = some (tu, rest) → rest ⊆ ts := by
+  intro ts
+  fun_induction parseTuples ts with
+  | case1 a b rest hab ih =>
+    intro tu rest' h
+    cases hr : parseTuples rest with
+    | none => simp [hr] at h
+    | some p =>
+      obtain ⟨r, ts'⟩ := p
+      simp only [hr, Option.map_some, Option.some.injEq, Prod.mk.injEq] at h
+      obtain ⟨_, rfl⟩ := h
+      intro t ht
+      have := ih _ _ hr ht
+      simp [this]
+  | case2 => intro tu rest' h; cases h
+  | case3 => intro tu rest' h; cases h
+  | case4 ts h1 h2 =>
+    intro tu rest' h
+    simp only [Option.some.injEq, Prod.mk.injEq] at h
+    obtain ⟨_, rfl⟩ := h
+    exact fun _ h => h
+
+theorem isKey_text {k : Tok} (h : isKey k = true) : KeyText k.text := by
+  simp only [isKey, Bool.or_eq_true, beq_iff_eq] at h
+  rcases h with rfl | rfl
+  · exact Or.inl rfl
+  · exact Or.inr rfl
+
+theorem parseProps_spec : ∀ (ts : List Tok) (ps : List (Str × Str)) (rest : List Tok),
+    parseProps ts = some (ps, rest) → (∀ q ∈ ps, KeyText q.1) ∧ rest ⊆ ts := by
+  intro ts
+  fun_induction parseProps ts with
+  | case1 rest =>
+    intro ps rest' h
+    simp only [Option.some.injEq, Prod.mk.injEq] at h
+    obtain ⟨rfl, rfl⟩ := h
+    exact ⟨by simp, fun _ h => List.mem_cons_of_mem _ h⟩
+  | case2 k v rest hkv ih =>
+    intro ps rest' h
+    cases hr : parseProps rest with
+    | none => simp [hr] at h
+    | some p =>
+      obtain ⟨r, ts'⟩ := p
+      simp only [hr, Option.map_some, Option.some.injEq, Prod.mk.injEq] at h
+      obtain ⟨rfl, rfl⟩ := h
+      obtain ⟨h1, h2⟩ := ih _ _ hr
+      simp only [Bool.and_eq_true] at hkv
+      refine ⟨?_, ?_⟩
+      · intro q hq
+        rcases List.mem_cons.1 hq with rfl | hq
+        · exact isKey_text hkv.1
+        · exact h1 q hq
+      · intro t ht
+        have := h2 ht
+        simp [this]
+  | case3 => intro ps rest' h; cases h
+  | case4 => intro ps rest' h; cases h
+
+def GoodAttrs (ats : List (Str × List (Str × Str))) : Prop :=
+  ∀ p ∈ ats, PosText p.1 ∧ ∀ q ∈ p.2, KeyText q.1
+
+theorem parseAttrs_spec : ∀ (ts : List Tok) (ats : List (Str × List (Str × Str))) (rest : List Tok),
+    (∀ t ∈ ts, GoodTok t) → parseAttrs ts = some (ats, rest) → GoodAttrs ats := by
+  intro ts
+  fun_induction parseAttrs ts with
+  | case1 i k v rest hc ps rest' hps hlen ih =>
+    intro ats rest'' hg h
+    cases hr : parseAttrs rest' with
+    | none => simp [hr] at h
+    | some p =>
+      obtain ⟨r, ts'⟩ := p
+      simp only [hr, Option.map_some, Option.some.injEq, Prod.mk.injEq] at h
+      obtain ⟨rfl, rfl⟩ := h
+      obtain ⟨h1, h2⟩ := parseProps_spec _ _ _ hps
+      simp only [Bool.and_eq_true] at hc
+      have hg' : ∀ t ∈ rest', GoodTok t := fun t ht => hg t (by have := h2 ht; simp [this])
+      have := ih _ _ hg' hr
+      intro p hp
+      rcases List.mem_cons.1 hp with rfl | hp
+      · refine ⟨gtZero_pos (hg i (by simp)) hc.1.1, ?_⟩
+        intro q hq
+        rcases List.mem_cons.1 hq with rfl | hq
+        · exact isKey_text hc.1.2
+        · exact h1 q hq
+      · exact this p hp
+  | case2 => intro ats rest'' hg h; cases h
+  | case3 => intro ats rest'' hg h; cases h
+  | case4 => intro ats rest'' hg h; cases h
+  | case5 => intro ats rest'' hg h; cases h
+  | case6 =>
+    intro ats rest'' hg h
+    simp only [Option.some.injEq, Prod.mk.injEq] at h
+    obtain ⟨rfl, rfl⟩ := h
+    intro p hp; cases hp
+
+theorem parseTucan_spec {ts : List Tok} {ast : Ast} (hg : ∀ t ∈ ts, GoodTok t)
+    (h : parseTucan ts = some ast) :
+    (∀ p ∈ ast.formula, p.1 ∈ withCarbonOrder ++ withoutCarbonOrder) ∧ GoodAttrs ast.attrs := by
+  unfold parseTucan at h
+  cases hf : parseFormula ts with
+  | none => simp [hf] at h
+  | some p =>
+    obtain ⟨f, ts1⟩ := p
+    obtain ⟨hf1, hf2⟩ := parseFormula_spec hf
+    simp only [hf, Option.bind_eq_bind, Option.bind_some] at h
+    split at h
+    · next ts2 =>
+      cases ht : parseTuples ts2 with
+      | none => simp [ht] at h
+      | some p =>
+        obtain ⟨tu, ts3⟩ := p
+        have ht2 := parseTuples_subset _ _ _ ht
+        simp only [ht, Option.bind_some] at h
+        split at h
+        · simp only [Option.some.injEq] at h
+          subst h
+          exact ⟨hf1, fun p hp => by cases hp⟩
+        · next ts4 =>
+          cases ha : parseAttrs ts4 with
+          | none => simp [ha] at h
+          | some p =>
+            obtain ⟨ats, ts5⟩ := p
+            simp only [ha, Option.bind_some] at h
+            split at h
+            · simp only [Option.some.injEq] at h
+              subst h
+              refine ⟨hf1, parseAttrs_spec _ _ _ ?_ ha⟩
+              intro t ht4
+              apply hg
+              apply hf2
+              apply List.mem_cons_of_mem
+              apply ht2
+              exact List.mem_cons_of_mem _ ht4
+            · cases h
+        · cases h
+    · cases h
+
+/-! ## Listener -/
+
+theorem listenerInt_res (t : Str) : Res (fun i => pyInt t = .ok i) (listenerInt t) := by
+  unfold listenerInt
+  cases h : pyInt t with
+  | error e => rfl
+  | ok i => rfl
+
+theorem alookup_mem {κ ν} [BEq κ] [LawfulBEq κ] {k : κ} {v : ν} :
+    ∀ {l : List (κ × ν)}, alookup k l = some v → (k, v) ∈ l := by
+  intro l
+  induction l with
+  | nil => intro h; cases h
+  | cons p l ih =>
+    obtain ⟨k', v'⟩ := p
+    intro h
+    simp only [alookup] at h
+    split at h
+    · next hk =>
+      have := eq_of_beq hk
+      simp only [Option.some.injEq] at h
+      subst this h
+      simp
+    · exact List.mem_cons_of_mem _ (ih h)
+
+theorem mem_ainsert {κ ν} [BEq κ] {k : κ} {v : ν} {p : κ × ν} :
+    ∀ {l : List (κ × ν)}, p ∈ ainsert k v l → p = (k, v) ∨ p ∈ l := by
+  intro l
+  induction l with
+  | nil => intro h; simp only [ainsert, List.mem_singleton] at h; exact Or.inl h
+  | cons q l ih =>
+    obtain ⟨k', v'⟩ := q
+    intro h
+    simp only [ainsert] at h
+    split at h
+    · rcases List.mem_cons.1 h with h | h
+      · exact Or.inl h
+      · exact Or.inr (List.mem_cons_of_mem _ h)
+    · rcases List.mem_cons.1 h with h | h
+      · exact Or.inr (by simp [h])
+      · rcases ih h with h | h
+        · exact Or.inl h
+        · exact Or.inr (List.mem_cons_of_mem _ h)
+
+theorem alookup_ainsert_isSome {κ ν} [BEq κ] [LawfulBEq κ] {k k' : κ} {v : ν} :
+    ∀ {l : List (κ × ν)}, (alookup k' l).isSome → (alookup k' (ainsert k v l)).isSome := by
+  intro l
+  induction l with
+  | nil => intro h; cases h
+  | cons q l ih =>
+    obtain ⟨k0, v0⟩ := q
+    intro h
+    simp only [ainsert]
+    split
+    · next hk =>
+      have := eq_of_beq hk
+      subst this
+      simp only [alookup] at h ⊢
+      split
+      · rfl
+      · next hk' => simp only [hk'] at h; exact h
+    · simp only [alookup] at h ⊢
+      split
+      · rfl
+      · next hk' => simp only [hk'] at h; exact ih h
+
+theorem elementZ_order :
+    (withCarbonOrder ++ withoutCarbonOrder).all (fun e => (elementZ e).isSome) = true := by
+  decide +kernel
+
+theorem attrKeyOf_keys :
+    attrKeyOf "mass".toList = some "mass" ∧ attrKeyOf "rad".toList = some "rad" := by
+  decide +kernel
+
+theorem listenFormula_res {f : List (Str × Option Str)}
+    (hf : ∀ p ∈ f, p.1 ∈ withCarbonOrder ++ withoutCarbonOrder) :
+    Res (fun (atoms : List Atom) => ∀ a ∈ atoms, a.z.isSome) (listenFormula f) := by
+  unfold listenFormula
+  refine Res.foldlM (P := fun (atoms : List Atom) => ∀ a ∈ atoms, a.z.isSome)
+    (Q := fun p => p.1 ∈ withCarbonOrder ++ withoutCarbonOrder) _ ?_ f hf [] (by simp)
+  rintro ⟨sym, cnt⟩ hsym acc hacc
+  have hz : (elementZ sym).isSome := by
+    have := List.all_eq_true.1 elementZ_order sym hsym
+    exact this
+  have hpure : ∀ count : Int, Res (fun (atoms : List Atom) => ∀ a ∈ atoms, a.z.isSome)
+      (match elementZ sym with
+        | some z => (pure z : PyM Nat) >>= fun z =>
+          pure (acc ++ List.replicate count.toNat
+            ({ sym := some sym, z := some (z : Int), part := some 0 } : Atom))
+        | none => (Except.error PyErr.keyError : PyM Nat) >>= fun z =>
+          pure (acc ++ List.replicate count.toNat
+            ({ sym := some sym, z := some (z : Int), part := some 0 } : Atom))) := by
+    intro count
+    cases hz' : elementZ sym with
+    | none => simp [hz'] at hz
+    | some z =>
+      show ∀ a ∈ acc ++ List.replicate count.toNat _, a.z.isSome
+      intro a ha
+      rcases List.mem_append.1 ha with ha | ha
+      · exact hacc a ha
+      · rw [(List.mem_replicate.1 ha).2]; rfl
+  cases cnt with
+  | none => exact hpure 1
+  | some c => exact Res.bind (listenerInt_res c) (fun count _ => hpure count)
+
+theorem listenTuples_res (tu : List (Str × Str)) : Res (fun _ => True) (listenTuples tu) := by
+  unfold listenTuples
+  refine Res.foldlM (P := fun _ => True) (Q := fun _ => True) _ ?_ tu (fun _ _ => trivial) [] trivial
+  rintro ⟨a, b⟩ _ acc _
+  refine Res.bind (listenerInt_res a) (fun i1 _ => ?_)
+  refine Res.bind (listenerInt_res b) (fun i2 _ => ?_)
+  split
+  · rfl
+  · trivial
+
+
+theorem setAttr_res {key : String} (hk : key = "mass" ∨ key = "rad") (v : Int) {a : Atom}
+    (ha : a.z = none) : Res (fun a' => a'.z = none) (setAttr key v a) := by
+  unfold setAttr
+  rcases hk with rfl | rfl
+  · simp only [beq_self_eq_true, if_true]
+    split
+    · rfl
+    · exact ha
+  · have : ("rad" == "mass") = false := by decide
+    simp only [this, Bool.false_eq_true, if_false, beq_self_eq_true, if_true]
+    split
+    · rfl
+    · exact ha
+
+/-- `_node_attributes`: indices are non-negative and no record carries an atomic number -/
+def NodeAttrsOk (na : List (Int × Atom)) : Prop := ∀ p ∈ na, 0 ≤ p.1 ∧ p.2.z = none
+
+theorem listenAttrs_res {ats : List (Str × List (Str × Str))} (h : GoodAttrs ats) :
+    Res NodeAttrsOk (listenAttrs ats) := by
+  unfold listenAttrs
+  refine Res.foldlM (P := NodeAttrsOk)
+    (Q := fun (p : Str × List (Str × Str)) => PosText p.1 ∧ ∀ q ∈ p.2, KeyText q.1) _ ?_ ats h [] (by intro p hp; cases hp)
+  rintro ⟨idx, props⟩ ⟨hidx, hprops⟩ acc hacc
+  refine Res.foldlM (P := NodeAttrsOk) (Q := fun (q : Str × Str) => KeyText q.1) _ ?_ props hprops acc hacc
+  rintro ⟨k, v⟩ hk acc hacc
+  refine Res.bind (listenerInt_res idx) (fun i hi => ?_)
+  refine Res.bind (listenerInt_res v) (fun value _ => ?_)
+  have hi1 : 1 ≤ i := pyInt_pos hidx hi
+  have hjp : ∀ key : String, (key = "mass" ∨ key = "rad") → Res NodeAttrsOk
+      (setAttr key value ((alookup (i - 1) acc).getD {}) >>= fun cur' =>
+        pure (ainsert (i - 1) cur' acc)) := by
+    intro key hkey
+    have hcur : ((alookup (i - 1) acc).getD ({} : Atom)).z = none := by
+      cases hl : alookup (i - 1) acc with
+      | none => rfl
+      | some a => exact (hacc _ (alookup_mem hl)).2
+    refine Res.bind (setAttr_res hkey value hcur) (fun cur' hcur' => ?_)
+    show NodeAttrsOk (ainsert (i - 1) cur' acc)
+    intro p hp
+    rcases mem_ainsert hp with rfl | hp
+    · exact ⟨by show 0 ≤ i - 1; omega, hcur'⟩
+    · exact hacc p hp
+  rcases hk with hk | hk
+  · simp only at hk
+    subst hk
+    simp only [attrKeyOf_keys.1]
+    exact hjp "mass" (Or.inl rfl)
+  · simp only at hk
+    subst hk
+    simp only [attrKeyOf_keys.2]
+    exact hjp "rad" (Or.inr rfl)
+
+
+/-! ## `to_graph` and `graph_from_molecule` -/
+
+theorem graphFromMolecule_res {atoms : List (Int × Atom)} (bonds : List ((Int × Int) × Bond))
+    (h : ∀ p ∈ atoms, p.2.z.isSome) : Res (fun _ => True) (graphFromMolecule atoms bonds) := by
+  unfold graphFromMolecule
+  refine Res.bind (P := fun _ => True) ?_ (fun _ _ => trivial)
+  refine Res.mono (Res.mapM (P := fun _ => True) (Q := fun (p : Int × Atom) => p.2.z.isSome) _ ?_ atoms h)
+    (fun _ _ => trivial)
+  rintro ⟨k, a⟩ ha
+  simp only at ha
+  refine Res.bind (P := fun _ => True) ?_ (fun _ _ => trivial)
+  unfold addInvariantCode
+  cases hz : a.z with
+  | none => simp [hz] at ha
+  | some z => trivial
+
+theorem zipIdx_lookup : ∀ (l : List Atom) (k j : Nat), k ≤ j → j < k + l.length →
+    (alookup (j : Int) ((l.zipIdx k).map fun (x : Atom × Nat) => ((x.2 : Int), x.1))).isSome := by
+  intro l
+  induction l with
+  | nil => intro k j h1 h2; simp at h2; omega
+  | cons a l ih =>
+    intro k j h1 h2
+    simp only [List.zipIdx_cons, List.map_cons, alookup]
+    split
+    · rfl
+    · next hne =>
+      have hkj : k ≠ j := by
+        rintro rfl
+        simp at hne
+      exact ih (k + 1) j (by omega) (by simp only [List.length_cons] at h2; omega)
+
+/-- the atoms dictionary has every key `0 ≤ idx < n` and every atom has an atomic number -/
+def DictOk (n : Int) (d : List (Int × Atom)) : Prop :=
+  (∀ idx : Int, 0 ≤ idx → idx < n → (alookup idx d).isSome) ∧ (∀ p ∈ d, p.2.z.isSome)
+
+theorem update_z {a extra : Atom} (h : extra.z = none) : (a.update extra).z = a.z := by
+  simp [Atom.update, h]
+
+theorem toGraph_res (st : ListenerState) (hat : ∀ a ∈ st.atoms, a.z.isSome)
+    (hna : NodeAttrsOk st.nodeAttrs) : Res (fun _ => True) (toGraph st) := by
+  unfold toGraph
+  refine Res.bind (P := fun _ => True) ?_ (fun _ _ => ?_)
+  · refine Res.forIn (P := fun _ => True) (Q := fun _ => True) _ ?_ _ (fun _ _ => trivial) _ trivial
+    rintro ⟨i1, i2⟩ _ b _
+    simp only
+    split
+    · rfl
+    · split
+      · rfl
+      · trivial
+  refine Res.bind (P := DictOk st.atoms.length) ?_ (fun d hd => ?_)
+  · refine Res.forIn (P := DictOk st.atoms.length) (Q := fun (p : Int × Atom) => 0 ≤ p.1 ∧ p.2.z = none)
+      _ ?_ _ hna _ ?_
+    · rintro ⟨idx, extra⟩ ⟨hidx, hextra⟩ d ⟨hd1, hd2⟩
+      simp only at hidx hextra ⊢
+      split
+      · rfl
+      · next hlt =>
+        have hsome := hd1 idx hidx (by omega)
+        cases hl : alookup idx d with
+        | none => simp [hl] at hsome
+        | some a =>
+          show DictOk _ (ainsert idx (a.update extra) d)
+          refine ⟨fun j hj1 hj2 => alookup_ainsert_isSome (hd1 j hj1 hj2), ?_⟩
+          intro p hp
+          rcases mem_ainsert hp with rfl | hp
+          · show ((a.update extra).z).isSome
+            rw [update_z hextra]
+            exact hd2 _ (alookup_mem hl)
+          · exact hd2 p hp
+    · refine ⟨?_, ?_⟩
+      · intro idx h0 hn
+        have hlen : (sortAtomsByZ st.atoms).length = st.atoms.length := by
+          simp [sortAtomsByZ, List.length_mergeSort]
+        have := zipIdx_lookup (sortAtomsByZ st.atoms) 0 idx.toNat (Nat.zero_le _) (by omega)
+        rw [Int.toNat_of_nonneg h0] at this
+        exact this
+      · intro p hp
+        simp only [List.mem_map] at hp
+        obtain ⟨⟨a, i⟩, hmem, rfl⟩ := hp
+        obtain ⟨hlt, heq⟩ := List.mem_zipIdx' hmem
+        have hin : a ∈ sortAtomsByZ st.atoms := heq ▸ List.getElem_mem _
+        exact hat _ (List.mem_mergeSort.1 hin)
+  · refine Res.bind (P := fun _ => True) (graphFromMolecule_res _ hd.2) (fun _ _ => trivial)
+
+/-! ## Assembly -/
+
+theorem graphFromTucan_res (s : Str) : Res (fun _ => True) (graphFromTucan s) := by
+  unfold graphFromTucan
+  cases hl : lex s with
+  | none => rfl
+  | some toks =>
+    simp only [pure_bind]
+    cases hp : parseTucan toks with
+    | none => rfl
+    | some ast =>
+      obtain ⟨h1, h2⟩ := parseTucan_spec (lex_good hl) hp
+      show Res _ (listenFormula ast.formula >>= _)
+      refine Res.bind (listenFormula_res h1) (fun atoms hat => ?_)
+      refine Res.bind (listenTuples_res _) (fun bonds _ => ?_)
+      refine Res.bind (listenAttrs_res h2) (fun na hna => ?_)
+      exact toGraph_res _ hat hna
+
+end Tucan.RejectKind
+
 namespace Tucan
 
 theorem graphFromTucan_error_kind (s : Str) (e : PyErr) (h : graphFromTucan s = .error e) :
     e = .tucanParser := by
-  sorry
+  have := RejectKind.graphFromTucan_res s
+  rw [h] at this
+  exact this
 
 end Tucan
